@@ -155,6 +155,9 @@ def gen_function(contract, contracts, known=()):
                 path.oblige(f"raises.{exc_name}.whenever", V.snot(c),
                             {"kind": "raises_missing", "clause": cond, "exc": exc_name})
             for name, text in contract.ensures.items():
+                if isinstance(text, dict):
+                    emit_structured(interp, contract, path, name, text, bound, result)
+                    continue
                 g = contract.eval_clause(interp, text, bound, {"result": result})
                 path.oblige(f"ensures.{name}", g, {"kind": "ensures", "clause": text, "clause_name": name})
             path.oblige("canary", False, {"kind": "canary"})
@@ -175,11 +178,40 @@ def gen_function(contract, contracts, known=()):
                 meta.update({"function": contract.key, "case": consts, "path": pi, "decisions": list(r.path.taken),
                              "specs": specs})
                 full = f"{contract.key}/{ob.name}{case_tag}@p{pi}"
+                meta["opt"] = ob.opt
                 if meta.get("kind") == "canary":
                     rep.canaries.append((full, ob.hyps, ob.goal, meta))
                 else:
                     rep.obligations.append((full, ob.hyps, ob.goal, meta))
     return rep
+
+
+def emit_structured(interp, contract, path, name, spec, bound, result):
+    """ensures clause with universally quantified variables and a proof chain:
+         forall vars. assume => show        proved as  assume & steps[<i] => steps[i]  and  assume & steps => show
+       (cut rule; the variables are skolem constants, which is complete for a goal)."""
+    extra = {"result": result}
+    for v, kind in spec.get("vars", {}).items():
+        extra[v] = Sym(z3.Real(f"{name}__{v}") if kind == "real" else z3.Int(f"{name}__{v}"))
+    saved = list(path.conds)
+    try:
+        if spec.get("assume"):
+            path.assume(contract.eval_clause(interp, spec["assume"], bound, extra))
+        native_clause = "implies(%s, %s)" % (spec.get("assume") or "True", spec["show"])
+        for i, st in enumerate(spec.get("steps", [])):
+            hint = None
+            if isinstance(st, (tuple, list)):
+                st, hint = st
+            g = contract.eval_clause(interp, st, bound, extra)
+            path.oblige(f"ensures.{name}.step{i}", g,
+                        {"kind": "ensures", "clause": native_clause, "clause_name": name, "step": st, "hint": hint,
+                         "qvars": {v: f"{name}__{v}" for v in spec.get("vars", {})}})
+            path.assume(g)
+        g = contract.eval_clause(interp, spec["show"], bound, extra)
+        path.oblige(f"ensures.{name}", g, {"kind": "ensures", "clause": native_clause, "clause_name": name,
+                                           "qvars": {v: f"{name}__{v}" for v in spec.get("vars", {})}})
+    finally:
+        path.conds[:] = saved
 
 
 def _exc_is(interp, exc, name):
@@ -234,7 +266,7 @@ def build_replay(pid, contract, ob_name, meta, model, verdict_raw):
         f"sys.path.insert(0, {ROOT!r})",
         "import numpy as np",
         "from dask import array as da",
-        "from pyvc.native import HELPERS, _generic_array",
+        "from pyvc.native import HELPERS, _generic_array, _rotation_from_matrix",
         "from pyvc import contract as _C",
         f"import contracts.{contract.cls.__module__.split('.')[-1]} as _cm",
         f"_c = _C.REGISTRY[{contract.key!r}]",
@@ -261,6 +293,11 @@ def build_replay(pid, contract, ob_name, meta, model, verdict_raw):
             "env.update({'max': max, 'min': min, 'abs': abs, 'len': len, 'all': all, 'any': any, 'int': int, 'float': float, 'round': round, 'slice': slice, 'tuple': tuple, 'zip': zip, 'range': range, 'sum': sum, 'isinstance': isinstance})",
         ]
         clause = meta.get("clause", "")
+        if meta.get("qvars"):
+            for v, mname in meta["qvars"].items():
+                val = model.get(mname, 0)
+                lines.append(f"env[{v!r}] = {C._num_src(val) if not isinstance(val, str) else 0}")
+            lines.append("print('quantified variables:', {k: env[k] for k in %r})" % list(meta["qvars"]))
         if kind == "ensures":
             lines += [
                 "if raised is not None:",
@@ -410,7 +447,14 @@ def check_property(pid, tier="quick", seed=0, bounded_hooks=None, only=None):
     if run.faults:
         return finish(run, 3)
 
-    res = solve.discharge([(n, h, g) for (n, h, g, m, c) in all_obs], timeout_s=timeout)
+    def _cands(m):
+        out = []
+        for n, sp in (m.get("specs") or {}).items():
+            out.extend(sp.candidates(n))
+        return out
+    res = solve.discharge_all([(h, [] if m.get("kind") == "canary" else (m.get("opt") or []), g,
+                                [] if m.get("kind") == "canary" else _cands(m), m.get("hint"))
+                               for (n, h, g, m, c) in all_obs], timeout_s=timeout)
     exit_code = 0
     for (name, hyps, goal, meta, c), r in zip(all_obs, res):
         if meta.get("kind") == "canary":
@@ -421,7 +465,7 @@ def check_property(pid, tier="quick", seed=0, bounded_hooks=None, only=None):
                 # path infeasible under the precondition: dead path, listed
                 meta["dead_under_pre"] = True
             continue
-        run.results.append({"name": name, "verdict": r["verdict"], "backend": r["backend"], "time": round(r["time"], 3),
+        run.results.append({"name": name, "verdict": r["verdict"], "backend": r["backend"], "time": round(r["time"], 3), "stage": r.get("stage"),
                             "clause": meta.get("clause"), "kind": meta.get("kind")})
         if r["verdict"] == "unsat":
             continue
@@ -548,6 +592,8 @@ def finish(run, exit_code):
             "bounded": run.bounded,
             "extraction_drops": EXTRACTION_DROPS,
             "samples": samples,
+            "all_obligations": [{"name": r["name"], "verdict": r["verdict"], "backend": r["backend"],
+                                 "stage": r.get("stage"), "time": r["time"]} for r in run.results],
             "explanation": "obligations are generated from /repo's working-tree source on every run; "
                            "'discharged' counts unsat verdicts of (hyps and not goal); bounded stand-ins are listed "
                            "under 'bounded' and are not counted",
